@@ -461,8 +461,20 @@ func runConcurrentMix(t *testing.T, id string, fs func(*rapid.T) features.Featur
 		w := NewWorld(rt, st, env.Options{}, id)
 		defer w.Close()
 		l := w.AddLedger("l1", "b1", fs(rt))
-		w.fund(l, []string{"a", "bank"}, "USD/2", []int64{100, 100})
+		// one run in three starts on a ledger that nobody has written to yet ('initializing'): the writers race for
+		// the first write, some of them opening the ledger before and some after the state has moved to 'in-use'
+		fresh := freshAllowed[id] && rapid.IntRange(0, 2).Draw(rt, "freshLedger") == 0
+		if !fresh {
+			w.fund(l, []string{"a", "bank"}, "USD/2", []int64{100, 100})
+		}
 		ws := mix(rt, w, l)
+		if fresh {
+			// a few more first writers, all drawing on world so that they do write
+			for i, k := 0, rapid.IntRange(1, 2).Draw(rt, "extraFirstWriters"); i < k; i++ {
+				r := TxRequest{Postings: ledger.Postings{ledger.NewPosting("world", rapid.SampledFrom([]string{"u:1", "u:2", "a:b"}).Draw(rt, "dst"), "USD/2", big.NewInt(int64(rapid.IntRange(1, 9).Draw(rt, "amt"))))}}
+				ws = append(ws, concWriter{Desc: "create " + r.describe(), Run: func(c ctrlOf) concOutcome { return c.createTx(r) }})
+			}
+		}
 		outs, s, ok := w.runWriters(rt, l, ws)
 		if !ok {
 			return
@@ -470,10 +482,13 @@ func runConcurrentMix(t *testing.T, id string, fs func(*rapid.T) features.Featur
 		oracle(w, l, ws, outs, s)
 		st.Case(describeOuts(ws, outs)+strings.Join(s.Trace, "|"), s.Switches >= 1, func() any {
 			return map[string]any{"outcomes": describeOuts(ws, outs), "schedule_len": len(s.Trace), "commit_order": s.CommitOrder()}
-		}, fmt.Sprintf("writers:%d", len(ws)), fmt.Sprintf("switches:%d", min(s.Switches, 5)))
+		}, fmt.Sprintf("writers:%d", len(ws)), fmt.Sprintf("switches:%d", min(s.Switches, 5)), fmt.Sprintf("fresh-ledger:%v", fresh))
 		st.Add("completed_checks", 1)
 	})
 }
+
+// freshAllowed lists the concurrent checks whose writer mix does not need a pre-existing transaction.
+var freshAllowed = map[string]bool{"C14": true, "C16": true, "C09": true}
 
 func genMix(refs bool, reverts bool) func(rt *rapid.T, w *World, l *LState) []concWriter {
 	return func(rt *rapid.T, w *World, l *LState) []concWriter {
@@ -482,7 +497,7 @@ func genMix(refs bool, reverts bool) func(rt *rapid.T, w *World, l *LState) []co
 		for i := 0; i < nw; i++ {
 			kind := rapid.IntRange(0, 2).Draw(rt, "kind")
 			switch {
-			case reverts && kind == 0:
+			case reverts && kind == 0 && len(l.M.Txs) > 0:
 				r := RevertRequest{ID: l.M.Txs[0].ID, Force: rapid.Bool().Draw(rt, "force"), AtEffectiveDate: rapid.Bool().Draw(rt, "atEff")}
 				ws = append(ws, concWriter{Desc: fmt.Sprintf("revert %d force=%v", r.ID, r.Force), Run: func(c ctrlOf) concOutcome { return c.revert(r) }})
 			default:
@@ -624,6 +639,13 @@ func TestC16Concurrent(t *testing.T) {
 	runConcurrentMix(t, "C16", GenFeatures, genMix(false, false), func(w *World, l *LState, ws []concWriter, outs []concOutcome, s *Sched) {
 		seenTx, seenLog := map[uint64]int{}, map[uint64]int{}
 		for i, o := range outs {
+			if o.Err != nil && o.Kind == ErrOther {
+				// an id handed out twice surfaces as a unique violation on (ledger, id) for the second writer
+				msg := o.Err.Error()
+				if strings.Contains(msg, "transactions_ledger") || strings.Contains(msg, "logs_ledger") || strings.Contains(msg, "concurrent transaction") {
+					w.V("C16", "writer %d failed because its id was already taken: %v\n%s\nschedule:\n  %s", i, o.Err, describeOuts(ws, outs), strings.Join(s.Trace, "\n  "))
+				}
+			}
 			if o.Err != nil || o.Hit {
 				continue
 			}
@@ -753,4 +775,181 @@ type pagedQuery = common.PaginatedQuery[any]
 func initialLogsQuery() common.InitialPaginatedQuery[any] {
 	asc := paginate.Order(paginate.OrderAsc)
 	return common.InitialPaginatedQuery[any]{PageSize: 15, Order: &asc}
+}
+
+// ------------------------------------------------------- C13 over every write kind
+
+const ruleC13Kinds = "2-4 requests sharing one idempotency key, over every write kind (create by postings incl. spend-all, revert with nil / empty / non-empty metadata, force and atEffectiveDate, save / delete transaction metadata, save / delete account metadata): the callers use one base input, except possibly one caller with another input (same or other kind); sequential or concurrent under a drawn statement-level interleaving. Oracle by input class: exactly one caller executes; callers with the executed input get that log back flagged as a hit (or, concurrently only, a key-conflict error); callers with another input get the invalid-idempotency-input error (or a key conflict); exactly one log carries the key; non-trivial = a replay of the executed input after it committed, on a kind other than create; distinct = by requests + schedule"
+
+type ikCaller struct {
+	op    evOp
+	class string
+}
+
+func TestC13Kinds(t *testing.T) {
+	st := stats.New("C13", "exploration", ruleC13Kinds, assumePgsim, assumeSched)
+	defer st.Write(t)
+	n := stats.N(300, 900)
+	st.Set("requested_checks", n)
+	stats.Check(t, n, 1313, func(rt *rapid.T) {
+		w := NewWorld(rt, st, env.Options{}, "C13")
+		defer w.Close()
+		l := w.AddLedger("l1", "b1", GenFeatures(rt))
+		w.fund(l, []string{"bank"}, "USD/2", []int64{40})
+		if out := w.CreateTx(l, TxRequest{Postings: ledger.Postings{ledger.NewPosting("world", "u:1", "USD/2", big.NewInt(9))}, Metadata: map[string]string{"k": "v"}}); out.Kind != ErrNone {
+			w.harness("seeding failed: %v", out.Err)
+		}
+		w.SaveAccountMeta(l, "u:1", map[string]string{"role": "x"}, false)
+		ik := "ik-" + rapid.SampledFrom([]string{"1", "x y", `q"`}).Draw(rt, "ik")
+		genOp := func(label string) evOp {
+			o := evOp{Kind: rapid.SampledFrom([]string{"create", "revert", "revert", "saveTxMeta", "deleteTxMeta", "saveAccMeta", "deleteAccMeta"}).Draw(rt, label+"Kind"), IK: ik}
+			switch o.Kind {
+			case "create":
+				amt := int64(rapid.SampledFrom([]int{1, 5, 40}).Draw(rt, label+"Amt"))
+				o.Post = ledger.Postings{ledger.NewPosting("bank", rapid.SampledFrom([]string{"u:1", "u:2"}).Draw(rt, label+"Dst"), "USD/2", big.NewInt(amt))}
+			case "revert":
+				o.TxID = uint64(rapid.IntRange(1, 2).Draw(rt, label+"Tx"))
+				o.Force = rapid.Bool().Draw(rt, label+"Force")
+				o.AtEffectiveDate = rapid.IntRange(0, 3).Draw(rt, label+"AtEff") == 0
+				switch rapid.IntRange(0, 2).Draw(rt, label+"Meta") {
+				case 0:
+					o.NilMeta = true
+				case 1:
+					o.Meta = map[string]string{}
+				default:
+					o.Meta = map[string]string{"why": rapid.SampledFrom([]string{"a", "b"}).Draw(rt, label+"Why")}
+				}
+			case "saveTxMeta":
+				o.TxID = uint64(rapid.IntRange(1, 2).Draw(rt, label+"Tx"))
+				o.Meta = map[string]string{rapid.SampledFrom([]string{"k", "k2"}).Draw(rt, label+"Key"): rapid.SampledFrom([]string{"v", "w"}).Draw(rt, label+"Val")}
+			case "deleteTxMeta":
+				o.TxID, o.Key = 2, "k"
+			case "saveAccMeta":
+				o.Addr = rapid.SampledFrom([]string{"u:1", "u:3"}).Draw(rt, label+"Addr")
+				o.Meta = map[string]string{"role": rapid.SampledFrom([]string{"x", "y"}).Draw(rt, label+"Val")}
+			case "deleteAccMeta":
+				o.Addr, o.Key = "u:1", "role"
+			}
+			return o
+		}
+		base := genOp("base")
+		nw := rapid.IntRange(2, 4).Draw(rt, "callers")
+		callers := make([]ikCaller, nw)
+		for i := range callers {
+			callers[i] = ikCaller{op: base, class: base.String()}
+		}
+		if rapid.IntRange(0, 2).Draw(rt, "withDifferentInput") == 0 {
+			other := genOp("other")
+			if other.String() != base.String() {
+				callers[rapid.IntRange(0, nw-1).Draw(rt, "differentIdx")] = ikCaller{op: other, class: other.String()}
+			}
+		}
+		type res struct {
+			log *ledger.Log
+			hit bool
+			err error
+		}
+		outs := make([]res, nw)
+		run := func(i int) {
+			c, err := w.Env.Ledger(w.Ctx, l.Name)
+			if err != nil {
+				outs[i] = res{err: err}
+				return
+			}
+			log, hit, err := callers[i].op.run(w.Ctx, c)
+			outs[i] = res{log, hit, err}
+		}
+		concurrent := rapid.IntRange(0, 2).Draw(rt, "concurrent") != 0
+		sched := ""
+		switches := 0
+		if concurrent {
+			s := NewSched(w)
+			for i := range callers {
+				i := i
+				s.Go(fmt.Sprintf("w%d", i), func() { run(i) })
+			}
+			if !s.Run(rt) {
+				return
+			}
+			sched = strings.Join(s.Trace, "\n  ")
+			switches = s.Switches
+		} else {
+			for i := range callers {
+				run(i)
+			}
+		}
+		for _, o := range outs {
+			if o.err != nil {
+				w.checkErr(o.err)
+			}
+		}
+		describe := func() string {
+			var sb strings.Builder
+			for i, c := range callers {
+				out := "ok"
+				switch {
+				case outs[i].err != nil:
+					out = string(classify(outs[i].err)) + ": " + truncateErr(outs[i].err)
+				case outs[i].hit:
+					out = fmt.Sprintf("hit on log %d", *outs[i].log.ID)
+				default:
+					out = fmt.Sprintf("executed, log %d", *outs[i].log.ID)
+				}
+				fmt.Fprintf(&sb, "  caller %d: %s => %s\n", i, c.op, out)
+			}
+			return sb.String()
+		}
+		winner := -1
+		for i, o := range outs {
+			if o.err == nil && !o.hit {
+				if winner >= 0 {
+					w.V("C13", "two callers executed the write for one idempotency key\n%sschedule:\n  %s", describe(), sched)
+				}
+				winner = i
+			}
+		}
+		nLogs := 0
+		for _, r := range w.Env.Sim.Rows("b1", "logs") {
+			if r["idempotency_key"].S == ik {
+				nLogs++
+			}
+		}
+		if (winner >= 0) != (nLogs == 1) || nLogs > 1 {
+			w.V("C13", "%d logs carry the idempotency key (executed write: caller %d)\n%sschedule:\n  %s", nLogs, winner, describe(), sched)
+		}
+		replayAfterCommit := false
+		if winner >= 0 {
+			for i, o := range outs {
+				if i == winner {
+					continue
+				}
+				same := callers[i].class == callers[winner].class
+				switch {
+				case o.err != nil && concurrent && isIKConflict(o.err) && classify(o.err) != ErrIdempotencyInput:
+					// lost the race on the unique index and was told so
+				case same && o.err == nil && o.hit && *o.log.ID == *outs[winner].log.ID:
+					if !concurrent || i > winner {
+						replayAfterCommit = true
+					}
+				case !same && classify(o.err) == ErrIdempotencyInput:
+				default:
+					what := "the executed input"
+					if !same {
+						what = "another input"
+					}
+					w.V("C13", "caller %d sent %s under the key and got a wrong answer\n%sschedule:\n  %s", i, what, describe(), sched)
+				}
+			}
+		} else {
+			for i, o := range outs {
+				if o.err == nil {
+					w.V("C13", "caller %d got a hit although no write was executed for the key\n%s", i, describe())
+				}
+			}
+		}
+		st.Case(describe()+sched, replayAfterCommit && base.Kind != "create" && (!concurrent || switches >= 1), func() any {
+			return map[string]any{"callers": strings.Split(strings.TrimSpace(describe()), "\n"), "concurrent": concurrent}
+		}, "kind:"+base.Kind, fmt.Sprintf("concurrent:%v", concurrent), fmt.Sprintf("winner:%v", winner >= 0))
+		st.Add("completed_checks", 1)
+	})
 }
